@@ -5,6 +5,7 @@ package checks
 // every write history of V versions over a small per-store write alphabet, against a map model.
 
 import (
+	"sync/atomic"
 	"bytes"
 	"fmt"
 	"sort"
@@ -58,7 +59,16 @@ type rmStore struct {
 	tkey *stypes.TransientStoreKey
 }
 
-func rmName(i int) string { return fmt.Sprintf("s%d", i+1) }
+// rmNameVariant selects the names of the mounted stores for a whole pass of a check (it is only
+// changed between passes): 0 = s1, s2, s3; 1 = names that are proper prefixes of each other.
+var rmNameVariant int32
+
+func rmName(i int) string {
+	if atomic.LoadInt32(&rmNameVariant) == 1 {
+		return []string{"acc", "accounts", "a", "accountsx"}[i]
+	}
+	return fmt.Sprintf("s%d", i+1)
+}
 
 // rmOpen mounts N IAVL stores + 1 transient store on db and loads version ver (-1 = latest).
 func rmOpen(db dbm.DB, n int, pruning [2]int64, ver int64) (*rmStore, error) {
@@ -110,11 +120,19 @@ type rmHist struct {
 	N       int
 	Choice  [][]int
 	Pruning [2]int64
+	Names   int `json:",omitempty"` // store-name variant (see rmNameVariant)
+	Reopen  int `json:",omitempty"` // 1 = the store is reopened before every commit, 2 = reopened with lazy loading
 }
 
 func (h rmHist) String() string {
 	var b bytes.Buffer
 	fmt.Fprintf(&b, "N=%d pruning=(%d,%d)", h.N, h.Pruning[0], h.Pruning[1])
+	if h.Names == 1 {
+		b.WriteString(" stores=acc,accounts,a")
+	}
+	if h.Reopen > 0 {
+		fmt.Fprintf(&b, " reopened-before-every-commit(lazy=%v)", h.Reopen == 2)
+	}
 	for v, cs := range h.Choice {
 		fmt.Fprintf(&b, " v%d[", v+1)
 		for i, c := range cs {
